@@ -31,6 +31,7 @@ MainVals  == {"absA", "colonB", "name", "rule", "empty", "garbage"}   \* file pa
 NsVals    == {"absA", "garbage", "empty"}                             \* in the private namespace: a non-UTC system zone that is replaced
 NoSysVals == {"absA", "garbage", "empty"}                             \* no /etc/localtime at all: "... and finally UTC"
 MoreVals  == {"colonName", "fixedF", "colonMissing", "missing", "badfile", "colonRule"}
+PadVals   == {"rule", "colonFullRule", "absA", "preAbsA", "postAbsA", "preColonB", "blank"}   \* X vs :X for a rule X; blank-padded paths
 BandVals  == {"absA", "colonB"}
 SysPlain  == {<<"UTC">>}                \* the host: /etc/localtime -> Etc/UTC (checked by the orchestrator at run time)
 SysNs     == {<<"S1", "S2">>}
